@@ -304,12 +304,15 @@ class SchedModel:
                     info["kind"] = "pool"
                     if not (s.args and self._is_execute_ref(f, s.args[0])):
                         raise Undecided(f"submit() whose first argument is not the node's execute: {norm_src(s)}")
-                elif q in self.P.funcs and self._reaches_run_in_executor(q):
+                elif q in self.P.funcs and (self._reaches_run_in_executor(q) or self.P.funcs[q].is_async):
+                    # a package wrapper (coroutine) around the submission; SCH-TASKDONE checks that it really uses the pool it is given
                     info["kind"] = "async"
                     info["callee"] = q
-                    # the pool must be the one passed
-                    if not any(dotted(a) == self.pool_var for a in list(s.args) + [k.value for k in s.keywords]):
-                        raise Undecided(f"async dispatch does not receive the pool: {norm_src(s)}")
+                    info["pool_passed"] = any(dotted(a) == self.pool_var for a in list(s.args) + [k.value for k in s.keywords])
+                elif q is not None and q.startswith("ext:") and not any(dotted(a) == self.pool_var for a in list(s.args) + [k.value for k in s.keywords]):
+                    # the node function is handed to an external callable that does not involve the scheduler's pool
+                    info["kind"] = "foreign"
+                    info["callee"] = q
                 else:
                     raise Undecided(f"unrecognised dispatch form: {norm_src(s)}")
             # climb to the statement, noting wrappers
@@ -333,7 +336,7 @@ class SchedModel:
         self.F: Dict[str, str] = {}
         self.F_add_of: Dict[int, str] = {}  # id(dispatch call) -> F name
         for info in self.dispatch.values():
-            if info["kind"] in ("pool", "async") and info["future_var"]:
+            if info["kind"] in ("pool", "async", "foreign") and info["future_var"]:
                 fv = info["future_var"]
                 for n in own_walk(self.loop_stmt):
                     if isinstance(n, ast.Call) and isinstance(n.func, ast.Attribute) and n.func.attr == "add" \
@@ -402,8 +405,10 @@ class SchedModel:
                                     "this form is not modelled")
 
     def _discover_activation(self) -> None:
-        """Package functions taking the node and a results map and reading the node's activation reference."""
-        self.activation_funcs: Set[str] = set()
+        self.activation_funcs: Set[str] = activation_functions(self.ctx)
+
+    def _unused_discover_activation(self) -> None:
+        self.activation_funcs = set()
         for q, g in self.P.funcs.items():
             a = g.node.args  # type: ignore[attr-defined]
             ps = a.posonlyargs + a.args
@@ -769,6 +774,26 @@ class SchedModel:
     def postloop_statements(self) -> List[ast.stmt]:
         body = self.fn.node.body  # type: ignore[attr-defined]
         return body[body.index(self.loop_stmt) + 1:]
+
+
+def activation_functions(ctx: Ctx) -> Set[str]:
+    """Package functions taking (node, results) and deciding from the node's activation reference whether it runs."""
+    def build():
+        EX = ctx.cls_q("ExecNode")
+        out: Set[str] = set()
+        for q, g in ctx.P.funcs.items():
+            a = g.node.args  # type: ignore[attr-defined]
+            ps = a.posonlyargs + a.args
+            if g.cls is None and g.parent is None and len(ps) == 2:
+                t0 = ctx.T.env(g).get(ps[0].arg, ("any",))
+                if ctx.T.is_instance(t0, EX, maybe=False):
+                    reads_active = any(isinstance(n, ast.Attribute) and n.attr == "active" and dotted(n.value) == ps[0].arg
+                                       for n in iter_own_nodes(g.node))
+                    rt = ctx.T.ann(g.module, g.node.returns)  # type: ignore[attr-defined]
+                    if reads_active and rt == ("bool",):
+                        out.add(q)
+        return out
+    return ctx.memo("activation_functions", build)
 
 
 # ---------------------------------------------------------------------- wait helper summaries
